@@ -55,6 +55,52 @@ def gen_runs(prop, tier, seed):
     return runs
 
 
+def c13_overlap_runs(tier, seed):
+    """Filter sets in which positive and skip filters OVERLAP: a broad positive
+    filter (crate, module, benchmark name) together with skip filters on some of
+    the cases it selects, several of each, regex and --exact.  Skip must win for
+    exactly the overlapping cases whatever was decided for the cases visited
+    before them."""
+    rnd = random.Random(seed + 1313)
+    runs = []
+    for k in range(70 if tier == "quick" else 600):
+        prog = progs.gen_program(rnd, f"ov{k}")
+        paths = [p for p in display_paths(prog) if all(c in progs.SAFE for c in p)]
+        if len(paths) < 2:
+            continue
+        cfg = progs.gen_config(rnd, prog, action=rnd.choice(["test", "test", "list", "list_terse", "bench"]),
+                               paths=[], nf=0)
+        segs = lambda p: [x for x in p.split("::") if x and not x.startswith("-")]
+        if rnd.random() < 0.3:
+            cfg["argv"].append("--exact")
+            chosen = rnd.sample(paths, min(len(paths), rnd.randint(2, 4)))
+            for p in chosen:
+                progs.add_filter(cfg, True, "exact", p)
+            for p in rnd.sample(chosen, rnd.randint(1, 2)) + ([rnd.choice(paths)] if rnd.random() < 0.4 else []):
+                progs.add_filter(cfg, False, "exact", p)
+        else:
+            victim_pool = [p for p in paths if len(segs(p)) >= 2]
+            if not victim_pool:
+                continue
+            for _ in range(rnd.randint(1, 3)):
+                v = rnd.choice(victim_pool)
+                sg = segs(v)
+                broad = rnd.choice(sg[:-1])                    # selects v and its neighbours
+                narrow = sg[-1]                                 # rejects v (and whatever else carries that text)
+                if not any(f["text"] == broad and f["inclusive"] for f in cfg["filters"]):
+                    progs.add_filter(cfg, True, "regex", broad)
+                text, ast = rnd.choice([
+                    (narrow, None),
+                    (narrow + "$", {"alts": [[{"t": "lit", "cp": progs.cp(narrow)}, {"t": "eol"}]]}),
+                ])
+                if len(cfg["filters"]) < 8:
+                    progs.add_filter(cfg, False, "regex", text, ast)
+            if rnd.random() < 0.3:
+                progs.add_filter(cfg, True, "regex", "nomatch")
+        runs.append((prog, cfg, f"C13-ov{k}"))
+    return runs
+
+
 def c16_collision_runs(tier, seed):
     """A module (group) and a benchmark with the same display name as siblings,
     declared in both orders, so that the tie-breakers behind each --sort key
@@ -114,7 +160,8 @@ def c15_matrix_runs(tier, seed):
     outer group) with values that include the falsy ones (false, 0, [1])."""
     rnd = random.Random(seed + 1515)
     values = {
-        "sample_count": [1, 2, 3], "sample_size": [1, 2, 3], "threads": [[1], [2], [1, 2]],
+        "sample_count": [1, 2, 3], "sample_size": [1, 2, 3],
+        "threads": [[1], [2], [1, 2], [0, 1], [0, progs.parallelism()], [2, 0, 2]],
         "min_time_ns": [0, 1, 2], "max_time_ns": [50, 100, 1000], "skip_ext_time": [False, True],
         "c0": [7, 8], "c1": [7, 8], "c2": [7, 8], "c3": [7, 8],
     }
@@ -383,6 +430,13 @@ def run(prop, tier, seed):
         p3, recs3 = execute(sr, f"{prop}.shapes")
         res.extra["painter_shapes_replayed"] = len(sr)
         validate_runs(res, prop, p3, "spec->impl:painter-shapes", by_name)
+
+    if prop == "C13":
+        ov = c13_overlap_runs(tier, seed)
+        by_name.update({name: (prog, cfg) for prog, cfg, name in ov})
+        p6, recs6 = execute(ov, f"{prop}.overlap")
+        res.extra["overlapping_filter_runs"] = len(ov)
+        validate_runs(res, prop, p6, "impl->spec:overlapping-positive-and-skip-filters", by_name)
 
     if prop == "C16":
         cr = c16_collision_runs(tier, seed)
